@@ -1,6 +1,8 @@
 /-
 Helper lemmas for C12: declarative well-typedness (`Conforms`) and "the traversal reaches an enum"
-(`Reaches`) versus the executable `is_valid_value`; the complete specification of
+(`Reaches`: the exact condition under which `is_valid_value` panicked before the repair of F-14;
+such values are now simply not valid) versus the executable `is_valid_value`; the complete
+specification of
 `from_query_and_arguments` (`validate_spec`, `validate_ok_iff`); the inferred variable type as the
 greatest lower bound of the use types (`inferLoop_spec`).
 -/
@@ -22,7 +24,9 @@ inductive Conforms (b : Bytes) : Shape → Value → Prop where
       (∀ x, x ∈ l → Conforms b s x) → Conforms b (.list n s) (.list l)
 
 /-- The traversal of `is_valid_value` reaches an enum leaf: the value is an enum, or it is a list
-checked against a list type and its first element that is not well-typed reaches one. -/
+checked against a list type and its first element that is not well-typed reaches one.  (Before the
+repair of F-14 this was exactly the condition for the `unimplemented!` panic — the former
+`valid_panic_iff`; now `reaches_not_valid`: such a value is refused.) -/
 inductive Reaches (b : Bytes) : Shape → Value → Prop where
   | enum {s : Shape} {e : Bytes} : Reaches b s (.enum e)
   | list {n : Bool} {s : Shape} {pre post : List Value} {x : Value} :
@@ -34,40 +38,39 @@ theorem depth_eq_zero_iff (s : Shape) : s.depth = 0 ↔ ∃ n, s = .named n := b
 
 mutual
 theorem valid_iff_conforms (b : Bytes) (s : Shape) :
-    (v : Value) → (Shape.valid b s v = .ok true ↔ Conforms b s v)
+    (v : Value) → (Shape.valid b s v = true ↔ Conforms b s v)
   | .null => by
-    simp only [Shape.valid, Outcome.ok.injEq]
+    simp only [Shape.valid]
     constructor
     · exact Conforms.null
     · intro h; cases h; assumption
   | .int64 i => by
-    simp only [Shape.valid, Outcome.ok.injEq, Bool.and_eq_true, depth_eq_zero_iff, beq_iff_eq]
+    simp only [Shape.valid, Bool.and_eq_true, depth_eq_zero_iff, beq_iff_eq]
     constructor
     · intro ⟨⟨n, hn⟩, hb⟩; subst hn; exact Conforms.int64 hb
     · intro h; cases h; exact ⟨⟨_, rfl⟩, by assumption⟩
   | .uint64 i => by
-    simp only [Shape.valid, Outcome.ok.injEq, Bool.and_eq_true, depth_eq_zero_iff, beq_iff_eq]
+    simp only [Shape.valid, Bool.and_eq_true, depth_eq_zero_iff, beq_iff_eq]
     constructor
     · intro ⟨⟨n, hn⟩, hb⟩; subst hn; exact Conforms.uint64 hb
     · intro h; cases h; exact ⟨⟨_, rfl⟩, by assumption⟩
   | .float64 i => by
-    simp only [Shape.valid, Outcome.ok.injEq, Bool.and_eq_true, depth_eq_zero_iff, beq_iff_eq]
+    simp only [Shape.valid, Bool.and_eq_true, depth_eq_zero_iff, beq_iff_eq]
     constructor
     · intro ⟨⟨n, hn⟩, hb⟩; subst hn; exact Conforms.float64 hb
     · intro h; cases h; exact ⟨⟨_, rfl⟩, by assumption⟩
   | .string i => by
-    simp only [Shape.valid, Outcome.ok.injEq, Bool.and_eq_true, depth_eq_zero_iff, beq_iff_eq]
+    simp only [Shape.valid, Bool.and_eq_true, depth_eq_zero_iff, beq_iff_eq]
     constructor
     · intro ⟨⟨n, hn⟩, hb⟩; subst hn; exact Conforms.string hb
     · intro h; cases h; exact ⟨⟨_, rfl⟩, by assumption⟩
   | .boolean i => by
-    simp only [Shape.valid, Outcome.ok.injEq, Bool.and_eq_true, depth_eq_zero_iff, beq_iff_eq]
+    simp only [Shape.valid, Bool.and_eq_true, depth_eq_zero_iff, beq_iff_eq]
     constructor
     · intro ⟨⟨n, hn⟩, hb⟩; subst hn; exact Conforms.boolean hb
     · intro h; cases h; exact ⟨⟨_, rfl⟩, by assumption⟩
   | .enum e => by
-    have : Shape.valid b s (.enum e) = .panic := by cases s <;> simp [Shape.valid]
-    rw [this]
+    rw [Shape.valid_enum]
     constructor <;> intro h <;> cases h
   | .list l => by
     cases s with
@@ -81,16 +84,13 @@ theorem valid_iff_conforms (b : Bytes) (s : Shape) :
       · exact Conforms.list
       · intro h; cases h; assumption
 theorem validAll_iff_conforms (b : Bytes) (s : Shape) :
-    (l : List Value) → (validAll b s l = .ok true ↔ ∀ x, x ∈ l → Conforms b s x)
+    (l : List Value) → (validAll b s l = true ↔ ∀ x, x ∈ l → Conforms b s x)
   | [] => by simp [validAll]
   | x :: xs => by
     have h1 := valid_iff_conforms b s x
     have h2 := validAll_iff_conforms b s xs
-    simp only [validAll, List.mem_cons, forall_eq_or_imp]
+    simp only [validAll, List.mem_cons, forall_eq_or_imp, Bool.and_eq_true]
     rw [← h1, ← h2]
-    cases hx : Shape.valid b s x with
-    | panic => simp
-    | ok r => cases r <;> simp
 end
 
 
@@ -105,82 +105,23 @@ theorem reaches_list_iff (b : Bytes) (n : Bool) (s : Shape) (l : List Value) :
     subst hl
     exact Reaches.list hp hx
 
-mutual
-theorem valid_panic_iff (b : Bytes) (s : Shape) :
-    (v : Value) → (Shape.valid b s v = .panic ↔ Reaches b s v)
-  | .null => by simp only [Shape.valid]; constructor <;> intro h <;> cases h
-  | .int64 _ => by simp only [Shape.valid]; constructor <;> intro h <;> cases h
-  | .uint64 _ => by simp only [Shape.valid]; constructor <;> intro h <;> cases h
-  | .float64 _ => by simp only [Shape.valid]; constructor <;> intro h <;> cases h
-  | .string _ => by simp only [Shape.valid]; constructor <;> intro h <;> cases h
-  | .boolean _ => by simp only [Shape.valid]; constructor <;> intro h <;> cases h
-  | .enum e => by
-    have : Shape.valid b s (.enum e) = .panic := by cases s <;> simp [Shape.valid]
-    rw [this]
-    exact ⟨fun _ => Reaches.enum, fun _ => rfl⟩
-  | .list l => by
-    cases s with
-    | named n =>
-      simp only [Shape.valid]
-      constructor <;> intro h <;> cases h
-    | list n s' =>
-      simp only [Shape.valid]
-      rw [reaches_list_iff]
-      exact validAll_panic_iff b s' l
-theorem validAll_panic_iff (b : Bytes) (s : Shape) :
-    (l : List Value) → (validAll b s l = .panic ↔
-      ∃ pre x post, l = pre ++ x :: post ∧ (∀ p, p ∈ pre → Conforms b s p) ∧ Reaches b s x)
-  | [] => by
-    simp only [validAll]
-    constructor
-    · intro h; cases h
-    · intro ⟨pre, x, post, hl, _, _⟩
-      cases pre <;> simp at hl
-  | y :: ys => by
-    have hp := valid_panic_iff b s y
-    have hc := valid_iff_conforms b s y
-    have ih := validAll_panic_iff b s ys
-    simp only [validAll]
-    cases hy : Shape.valid b s y with
-    | panic =>
-      simp only [true_iff]
-      exact ⟨[], y, ys, rfl, by simp, hp.mp hy⟩
-    | ok r =>
-      cases r with
-      | false =>
-        simp only [reduceCtorEq, false_iff]
-        intro ⟨pre, x, post, hl, hpre, hx⟩
-        cases pre with
-        | nil =>
-          simp at hl
-          obtain ⟨rfl, _⟩ := hl
-          rw [hp.mpr hx] at hy; cases hy
-        | cons p pre' =>
-          simp at hl
-          obtain ⟨rfl, _⟩ := hl
-          have := hc.mpr (hpre _ (by simp))
-          rw [this] at hy; cases hy
-      | true =>
-        simp only []
-        rw [ih]
-        constructor
-        · intro ⟨pre, x, post, hl, hpre, hx⟩
-          refine ⟨y :: pre, x, post, by simp [hl], ?_, hx⟩
-          intro p hpm
-          cases List.mem_cons.mp hpm with
-          | inl h => subst h; exact hc.mp hy
-          | inr h => exact hpre p h
-        · intro ⟨pre, x, post, hl, hpre, hx⟩
-          cases pre with
-          | nil =>
-            simp at hl
-            obtain ⟨rfl, _⟩ := hl
-            rw [hp.mpr hx] at hy; cases hy
-          | cons p pre' =>
-            simp at hl
-            obtain ⟨rfl, rfl⟩ := hl
-            exact ⟨pre', x, post, rfl, fun q hq => hpre q (by simp [hq]), hx⟩
-end
+/-- A value whose traversal reaches an enum leaf is not well-typed. -/
+theorem reaches_not_conforms {b : Bytes} {s : Shape} {v : Value} (h : Reaches b s v) :
+    ¬ Conforms b s v := by
+  induction h with
+  | enum => intro hc; cases hc
+  | list _ _ ih =>
+    intro hc
+    cases hc with
+    | list hall => exact ih (hall _ (by simp))
+
+/-- … so `is_valid_value` answers `false` on it (it answered with a panic before the repair of F-14:
+the former `valid_panic_iff : Shape.valid b s v = .panic ↔ Reaches b s v`). -/
+theorem reaches_not_valid {b : Bytes} {s : Shape} {v : Value} (h : Reaches b s v) :
+    Shape.valid b s v = false := by
+  cases hv : Shape.valid b s v with
+  | false => rfl
+  | true => exact absurd ((valid_iff_conforms b s v).mp hv) (reaches_not_conforms h)
 
 
 /-! ### `from_query_and_arguments` -/
@@ -192,76 +133,27 @@ variable {N : Type} [DecidableEq N]
 def illTyped (vars : List (N × Ty)) (args : List (N × Value)) : List (ArgErr N) :=
   vars.filterMap fun nt =>
     match getArg args nt.1 with
-    | some v => if isValidValue nt.2 v = .ok false then some (.argumentTypeError nt.1 nt.2 v) else none
+    | some v => if isValidValue nt.2 v = false then some (.argumentTypeError nt.1 nt.2 v) else none
     | none => none
 
 /-- The variables without a value, in variable order. -/
 def missing (vars : List (N × Ty)) (args : List (N × Value)) : List N :=
   (vars.filter fun nt => (getArg args nt.1).isNone).map (·.1)
 
-/-- Some supplied value makes `is_valid_value` panic. -/
-def SomePanics (vars : List (N × Ty)) (args : List (N × Value)) : Prop :=
-  ∃ nt, nt ∈ vars ∧ ∃ v, getArg args nt.1 = some v ∧ isValidValue nt.2 v = .panic
-
-theorem checkVariables_panic_iff (args : List (N × Value)) (vars : List (N × Ty)) :
-    checkVariables args vars = .panic ↔ SomePanics vars args := by
+theorem checkVariables_eq (args : List (N × Value)) (vars : List (N × Ty)) :
+    checkVariables args vars = (illTyped vars args, missing vars args) := by
   induction vars with
-  | nil => simp [checkVariables, SomePanics]
+  | nil => simp [checkVariables, illTyped, missing]
   | cons nt rest ih =>
     obtain ⟨n, t⟩ := nt
-    have hs : SomePanics ((n, t) :: rest) args ↔
-        (∃ v, getArg args n = some v ∧ isValidValue t v = .panic) ∨ SomePanics rest args := by
-      simp [SomePanics]
-    rw [hs, ← ih]
-    simp only [checkVariables]
+    simp only [checkVariables, ih]
     cases hg : getArg args n with
-    | none =>
-      simp only [false_and, exists_false, false_or, reduceCtorEq]
-      cases checkVariables args rest with
-      | panic => simp
-      | ok p => obtain ⟨es, ms⟩ := p; simp
+    | none => simp [illTyped, missing, hg]
     | some v =>
-      simp only [validateArgumentType, Option.some.injEq, exists_eq_left']
-      cases hv : isValidValue t v with
-      | panic => simp
-      | ok r =>
-        cases checkVariables args rest with
-        | panic => cases r <;> simp
-        | ok p => obtain ⟨es, ms⟩ := p; cases r <;> simp
+      cases hv : isValidValue t v <;>
+        simp [illTyped, missing, hg, hv, validateArgumentType]
 
-theorem checkVariables_ok (args : List (N × Value)) (vars : List (N × Ty)) {es : List (ArgErr N)}
-    {ms : List N} (h : checkVariables args vars = .ok (es, ms)) :
-    es = illTyped vars args ∧ ms = missing vars args := by
-  induction vars generalizing es ms with
-  | nil => simp [checkVariables] at h; simp [h, illTyped, missing]
-  | cons nt rest ih =>
-    obtain ⟨n, t⟩ := nt
-    simp only [checkVariables] at h
-    cases hg : getArg args n with
-    | none =>
-      rw [hg] at h
-      cases hr : checkVariables args rest with
-      | panic => simp [hr] at h
-      | ok p =>
-        obtain ⟨es', ms'⟩ := p
-        simp [hr] at h
-        obtain ⟨e1, e2⟩ := ih hr
-        simp [illTyped, missing, hg, ← h.1, ← h.2, e1, e2]
-    | some v =>
-      rw [hg] at h
-      simp only [validateArgumentType] at h
-      cases hv : isValidValue t v with
-      | panic => simp [hv] at h
-      | ok r =>
-        cases hr : checkVariables args rest with
-        | panic => cases r <;> simp [hv, hr] at h
-        | ok p =>
-          obtain ⟨es', ms'⟩ := p
-          obtain ⟨e1, e2⟩ := ih hr
-          cases r <;> simp [hv, hr] at h <;>
-            simp [illTyped, missing, hg, hv, ← h.1, ← h.2, e1, e2]
-
-/-- The `errors` vector of a run that does not panic. -/
+/-- The `errors` vector of a run. -/
 def errorsOf (vars : List (N × Ty)) (args : List (N × Value)) : List (ArgErr N) :=
   illTyped vars args ++
     (if (missing vars args).isEmpty then [] else [.missingArguments (missing vars args)]) ++
@@ -274,52 +166,40 @@ theorem ofVec_ok {es : List (ArgErr N)} (h : es ≠ []) :
   | [e], _ => exact ⟨_, rfl, rfl⟩
   | e1 :: e2 :: rest, _ => exact ⟨_, rfl, rfl⟩
 
-/-- `validate`, completely: panic exactly when a supplied value makes `is_valid_value` panic;
-otherwise accepted exactly when the `errors` vector is empty, and refused with exactly it. -/
+/-- `validate`, completely (no side condition — before the repair of F-14 this was stated under
+`¬ SomePanics vars args`, "no supplied value makes `is_valid_value` panic", and the first clause
+was `SomePanics vars args → validate vars args = .panic`): accepted exactly when the `errors`
+vector is empty, and refused with exactly it otherwise. -/
 theorem validate_spec (vars : List (N × Ty)) (args : List (N × Value)) :
-    (SomePanics vars args → validate vars args = .panic) ∧
-    (¬ SomePanics vars args →
-      (errorsOf vars args = [] → validate vars args = .ok (.ok ())) ∧
-      (errorsOf vars args ≠ [] →
-        ∃ e, validate vars args = .ok (.error e) ∧ e.errors = errorsOf vars args)) := by
+    (errorsOf vars args = [] → validate vars args = .ok (.ok ())) ∧
+    (errorsOf vars args ≠ [] →
+      ∃ e, validate vars args = .ok (.error e) ∧ e.errors = errorsOf vars args) := by
+  have hE : (let errors := if (missing vars args).isEmpty then illTyped vars args
+        else illTyped vars args ++ [.missingArguments (missing vars args)]
+      if (unusedArguments vars args).isEmpty then errors
+      else errors ++ [.unusedArguments (unusedArguments vars args)]) = errorsOf vars args := by
+    unfold errorsOf
+    cases (missing vars args).isEmpty <;> cases (unusedArguments vars args).isEmpty <;> simp
+  simp only [] at hE
   constructor
-  · intro h
-    have := (checkVariables_panic_iff args vars).mpr h
-    simp [validate, this]
-  · intro h
-    cases hc : checkVariables args vars with
-    | panic => exact absurd ((checkVariables_panic_iff args vars).mp hc) h
-    | ok p =>
-      obtain ⟨es, ms⟩ := p
-      obtain ⟨e1, e2⟩ := checkVariables_ok args vars hc
-      subst e1 e2
-      have hE : (let errors := if (missing vars args).isEmpty then illTyped vars args
-            else illTyped vars args ++ [.missingArguments (missing vars args)]
-          if (unusedArguments vars args).isEmpty then errors
-          else errors ++ [.unusedArguments (unusedArguments vars args)]) = errorsOf vars args := by
-        unfold errorsOf
-        cases (missing vars args).isEmpty <;> cases (unusedArguments vars args).isEmpty <;> simp
-      constructor
-      · intro h0
-        simp only [validate, hc]
-        simp only [] at hE
-        rw [hE, h0]; rfl
-      · intro hne
-        obtain ⟨e, he, hee⟩ := ofVec_ok hne
-        refine ⟨e, ?_, hee⟩
-        simp only [validate, hc]
-        simp only [] at hE
-        rw [hE]
-        have : (errorsOf vars args).isEmpty = false := by
-          cases h' : errorsOf vars args with
-          | nil => exact absurd h' hne
-          | cons _ _ => rfl
-        simp [this, he]
+  · intro h0
+    simp only [validate, checkVariables_eq]
+    rw [hE, h0]; rfl
+  · intro hne
+    obtain ⟨e, he, hee⟩ := ofVec_ok hne
+    refine ⟨e, ?_, hee⟩
+    simp only [validate, checkVariables_eq]
+    rw [hE]
+    have : (errorsOf vars args).isEmpty = false := by
+      cases h' : errorsOf vars args with
+      | nil => exact absurd h' hne
+      | cons _ _ => rfl
+    simp [this, he]
 
 
 theorem mem_illTyped {vars : List (N × Ty)} {args : List (N × Value)} {e : ArgErr N} :
     e ∈ illTyped vars args ↔ ∃ nt, nt ∈ vars ∧ ∃ v, getArg args nt.1 = some v ∧
-      isValidValue nt.2 v = .ok false ∧ e = .argumentTypeError nt.1 nt.2 v := by
+      isValidValue nt.2 v = false ∧ e = .argumentTypeError nt.1 nt.2 v := by
   simp only [illTyped, List.mem_filterMap]
   constructor
   · intro ⟨nt, hm, h⟩
@@ -361,16 +241,15 @@ theorem errorsOf_eq_nil_iff (vars : List (N × Ty)) (args : List (N × Value)) :
 /-- Acceptance, exactly. -/
 theorem validate_ok_iff (vars : List (N × Ty)) (args : List (N × Value)) :
     validate vars args = .ok (.ok ()) ↔
-      (∀ nt, nt ∈ vars → ∃ x, getArg args nt.1 = some x ∧ isValidValue nt.2 x = .ok true) ∧
+      (∀ nt, nt ∈ vars → ∃ x, getArg args nt.1 = some x ∧ isValidValue nt.2 x = true) ∧
       (∀ kv, kv ∈ args → ∃ t, (kv.1, t) ∈ vars) := by
   have spec := validate_spec vars args
   constructor
   · intro h
-    have hnp : ¬ SomePanics vars args := fun hp => by rw [spec.1 hp] at h; cases h
     have hnil : errorsOf vars args = [] := by
       apply Classical.byContradiction
       intro hne
-      obtain ⟨e, he, _⟩ := (spec.2 hnp).2 hne
+      obtain ⟨e, he, _⟩ := spec.2 hne
       rw [he] at h; cases h
     obtain ⟨h1, h2, h3⟩ := (errorsOf_eq_nil_iff vars args).mp hnil
     constructor
@@ -382,26 +261,18 @@ theorem validate_ok_iff (vars : List (N × Ty)) (args : List (N × Value)) :
       | some x =>
         refine ⟨x, rfl, ?_⟩
         cases hv : isValidValue nt.2 x with
-        | panic => exact absurd ⟨nt, hm, x, hg, hv⟩ hnp
-        | ok r =>
-          cases r with
-          | true => rfl
-          | false =>
-            have : ArgErr.argumentTypeError nt.1 nt.2 x ∈ illTyped vars args :=
-              mem_illTyped.mpr ⟨nt, hm, x, hg, hv, rfl⟩
-            rw [h1] at this; cases this
+        | true => rfl
+        | false =>
+          have : ArgErr.argumentTypeError nt.1 nt.2 x ∈ illTyped vars args :=
+            mem_illTyped.mpr ⟨nt, hm, x, hg, hv, rfl⟩
+          rw [h1] at this; cases this
     · intro kv hm
       apply Classical.byContradiction
       intro hno
       have : kv.1 ∈ unusedArguments vars args := mem_unused.mpr ⟨⟨kv.2, hm⟩, hno⟩
       rw [h3] at this; cases this
   · intro ⟨hv, hk⟩
-    have hnp : ¬ SomePanics vars args := by
-      intro ⟨nt, hm, v, hg, hp⟩
-      obtain ⟨x, hx, hxv⟩ := hv nt hm
-      rw [hg] at hx; cases hx
-      rw [hp] at hxv; cases hxv
-    apply (spec.2 hnp).1
+    apply spec.1
     rw [errorsOf_eq_nil_iff]
     refine ⟨?_, ?_, ?_⟩
     · apply List.eq_nil_iff_forall_not_mem.mpr
@@ -426,8 +297,8 @@ end
 
 theorem inferLoop_spec {e : Ty} (he : WF e) (uses : List Ty) (hu : ∀ u, u ∈ uses → WF u) :
     ∃ t bad, inferLoop e uses = .ok (t, bad) ∧ WF t ∧
-      (bad = false → ∀ x, isValidValue t x = .ok true ↔
-        (isValidValue e x = .ok true ∧ ∀ u, u ∈ uses → isValidValue u x = .ok true)) ∧
+      (bad = false → ∀ x, isValidValue t x = true ↔
+        (isValidValue e x = true ∧ ∀ u, u ∈ uses → isValidValue u x = true)) ∧
       (bad = true ↔ ∃ u, u ∈ uses ∧ equalIgnoringNullability e u = false) := by
   induction uses generalizing e with
   | nil => exact ⟨e, false, rfl, he, by simp, by simp⟩
